@@ -24,9 +24,14 @@ def worker(ck: Check, job):
     code, thr = job[0], job[1]
     part = job[2] if len(job) > 2 else 'both'
     L = LANGS[code]
-    quick = ck.tier == 'quick'
+    import os
+    tiny = ck.tier == 'quick'
+    quick = not os.environ.get('VERIF_DEEP')
     k = 3 if quick else 4
     reps, classes = stream_alphabet(ck, code, quick)
+    if tiny:
+        from oracle.langs import QUICK_WORDS
+        reps = list(QUICK_WORDS[code])
     # the alphabet is the lowercase words; every word token additionally chooses one of its recasings
     # a number word with a non-ASCII letter must be present (case mapping outside ASCII is where lowercasing can go wrong)
     reps = list(reps) + [w for w in NON_ASCII.get(code, []) if w not in reps]
@@ -136,10 +141,11 @@ def run(ck: Check):
     only = os.environ.get('VERIF_LANGS')
     if only:
         langs = [c for c in langs if c in only.split(',')]
-    jobs = [(c, t, 'scan') for c in langs for t in ((10.0,) if ck.tier == 'quick' else (0.0, 10.0))]
+    import os
+    jobs = [(c, t, 'scan') for c in langs for t in ((0.0, 10.0) if os.environ.get('VERIF_DEEP') else (10.0,))]
     jobs += [(c, 0.0, 'validate') for c in langs]
     run_parallel(ck, worker, jobs)
-    ck.outside += ['streams of more than %d word tokens' % (3 if ck.tier == 'quick' else 4),
+    ck.outside += ['streams of more than 3 word tokens', 'quick: words other than one per role (oracle QUICK_WORDS) and the non-ASCII number word; thorough: one word per behaviour class of the core alphabet',
                    'recasings other than lower / UPPER / Capitalised / aLtErNaTiNg', 'words whose case mapping is not reversible (excluded by the property)']
     ck.assumptions.append("a token's lowercase field is the lowercase of its text (what BasicToken::new computes)")
     return ('The same solver-chosen stream is scanned from MIR twice: all lowercase, and with a solver-chosen recasing per word '
